@@ -396,10 +396,16 @@ func sameAll(key string, ps ...*pmat) *vk.Failure {
 // is pre-filled with NaN: its content on entry is unspecified, so a result that
 // depends on it is wrong.
 func withWork(c kase, rng *vk.SplitMix, minL int, call func(work []float64, lwork int), ops ...*pmat) (lwork, query int, f *vk.Failure) {
-	return withWorkE(c, rng, minL, false, call, ops...)
+	return withWorkP(c, rng, minL, false, nil, call, ops...)
 }
 
 func withWorkE(c kase, rng *vk.SplitMix, minL int, emptyProblem bool, call func(work []float64, lwork int), ops ...*pmat) (lwork, query int, f *vk.Failure) {
+	return withWorkP(c, rng, minL, emptyProblem, nil, call, ops...)
+}
+
+// withWorkP: pick, when not nil, chooses lwork for c.LW == 4 (routine-specific
+// probing of internal workspace thresholds); the result is clamped to >= minL.
+func withWorkP(c kase, rng *vk.SplitMix, minL int, emptyProblem bool, pick func(minL, query int) int, call func(work []float64, lwork int), ops ...*pmat) (lwork, query int, f *vk.Failure) {
 	wq := newPvec("work(query)", 1, rng, false)
 	snapAll(ops...)
 	wq.snapshot()
@@ -437,6 +443,11 @@ func withWorkE(c kase, rng *vk.SplitMix, minL int, emptyProblem bool, call func(
 			lwork = minL + 1 + rng.Intn(query-minL-1)
 		} else if query > minL {
 			lwork = minL + 1
+		}
+	case 4:
+		lwork = query
+		if pick != nil {
+			lwork = max(minL, pick(minL, query))
 		}
 	default:
 		lwork = query + 7
